@@ -18,14 +18,15 @@ hdr = "| seeded change | check | what it changes | group(s) run | result (quick 
 p = os.path.join(VERIF, "DESIGN.md")
 s = open(p).read()
 a = s.index("## 14. Seeded changes")
+third = s[s.index("### Third round", a):] if "### Third round" in s[a:] else ""  # hand-written, kept verbatim
 intro_end = s.index("First round (", a) if "First round (" in s[a:] else s.index("Every change is caught", a)
 miss1 = s[s.index("Misses on the way, and what was strengthened", a):]
 if "### Second round" in miss1:
     miss1 = miss1[:miss1.index("### Second round")]
-r1 = rows(lambda n: "_r2" not in n)
+r1 = rows(lambda n: "_r2" not in n and "_r3" not in n)
 r2 = rows(lambda n: "_r2" in n)
 n1 = len([l for l in r1.split("\n") if "caught" in l]); t1 = len(r1.split("\n"))
 n2 = len([l for l in r2.split("\n") if "caught" in l]); t2 = len(r2.split("\n"))
-text = s[:intro_end] + ("First round (47 changes): %d of %d caught (exit 1 with replayed VIOLATION lines) by the quick tier of the check of the\nproperty they were written against:\n\n" % (n1, t1)) + hdr + r1 + "\n\n" + miss1.rstrip() + "\n\n" + open(os.path.join(VERIF, "tools", "round2_notes.md")).read().replace("@N2@", str(n2)).replace("@T2@", str(t2)).replace("@TABLE2@", hdr + r2) + "\n"
+text = s[:intro_end] + ("First round (47 changes): %d of %d caught (exit 1 with replayed VIOLATION lines) by the quick tier of the check of the\nproperty they were written against:\n\n" % (n1, t1)) + hdr + r1 + "\n\n" + miss1.rstrip() + "\n\n" + open(os.path.join(VERIF, "tools", "round2_notes.md")).read().replace("@N2@", str(n2)).replace("@T2@", str(t2)).replace("@TABLE2@", hdr + r2) + "\n" + (("\n" + third) if third else "")
 open(p, "w").write(text)
 print("round1 %d/%d, round2 %d/%d" % (n1, t1, n2, t2))
